@@ -199,7 +199,10 @@ Fixpoint compat (fuel : nat) (rds : rdefs) (tds : tdefs) (r : rty) (t : tty) {st
     | RRef n, _ =>
         match rfind rds n, t with
         | Some (RStruct fs), TObj tfs =>
-            names_nodup (map (fun f => fst (fst f)) fs) && each_rfield fs tfs && each_tfield tfs fs
+            (* the TS field names must be distinct too: [each_rfield] only sees the FIRST declaration of a
+               name ([tfield]), while [conforms] checks every declaration against the value *)
+            names_nodup (map (fun f => fst (fst f)) fs) && names_nodup (map (fun f => fst (fst f)) tfs)
+            && each_rfield fs tfs && each_tfield tfs fs
         | Some (REnum names), TUnion ts => forallb (fun s => existsb (fun t => match t with TLit s' => beq s s' | _ => false end) ts) names
         | Some (REnum names), TLit s => forallb (beq s) names
         | _, _ => false
